@@ -75,7 +75,8 @@ inputs, sample of observations).  `bin/setup` builds everything; `bin/checkall` 
 * The hand-written models: the tie is differential testing, so it is only as good as the generated inputs; every evidence
   file records the generation rule and the distribution actually produced.
 * `coq/Ebpf/Isa.v` (validated against the kernel when bpf() works, otherwise trusted); `coq/Corr/C09.v` (hash-map helper calls
-  on top of it: NOT validated against the kernel); `coq/Corr/C06.v` (multi-instance scheduler).
+  on top of it: validated against the kernel's real hash maps by `harness/hash_check.py` - return values of lookup / update with
+  every flag / delete, capacity, values through the returned pointers, final map - when bpf() works); `coq/Corr/C06.v` (multi-instance scheduler).
 * The simulators listed in section 1 (they stand for hardware, kernel and netlink); Python's `struct`, `fractions`, `asyncio`
   cancellation semantics, `fcntl` locks, `multiprocessing` shared arrays.
 * Per check, `evidence/<id>.json` repeats its own list under `trusted_base`.
